@@ -360,7 +360,7 @@ class GetBaseEquivalentAtCallSite(Contract):
     def result(self, it, a):
         r = make_unit(it, "base_equivalent", registry=a.self.fields["registry"])
         it.assume(z3.Length(S.ustr(r)) >= 1)           # ASSUMED['sympy-str-nonempty']
-        self._r = r
+        it.ctx.events.append(("base-equivalent", a.self, a.get("unit_system"), r))     # ghost: who asked for what
         return r
 
     def ensures(self, it, a, r, old):
@@ -416,8 +416,15 @@ class InBase(_Route):
             ("C17: result dtype: float of the same item size (>= 16 bit), complex stays complex",
              z3.And(to_z3(N.arr_kind(r)) == rk, to_z3(N.arr_itemsize(r)) == rn)),
             ("result keeps the class", r.cls.name == a.self.cls.name),
-        ]
+        ] + self.system_forwarded(it, a, old, ru)
         return out + self.unchanged(a, old)
+
+    def system_forwarded(self, it, a, old, ru):
+        """C10: 'agrees with get_base_equivalent': the unit of the result is the one get_base_equivalent names
+        for the input's unit and the unit system the caller named"""
+        evs = [e for e in it.ctx.events if e[0] == "base-equivalent"]
+        ok = len(evs) == 1 and evs[0][1] is old["units"] and evs[0][2] is a.unit_system and evs[0][3] is ru
+        return [("C10: the result's unit is get_base_equivalent(<the caller's unit system>) of the input's unit", ok)]
 
     def canary(self, it, a, r, old):
         return to_real(N.arr_elem(r)) == to_real(old["elem"])
@@ -455,7 +462,7 @@ class ConvertToBase(InBase):
                  ru.fields["registry"] is old["units"].fields["registry"]),
                 ("C18: same memory buffer (in place)", b is old["buf"]),
                 ("C17: dtype as for the copying route", z3.And(to_z3(b.kind) == rk, to_z3(b.itemsize) == rn)),
-                ("returns None", r is None)]
+                ("returns None", r is None)] + self.system_forwarded(it, a, old, ru)
 
     def on_raise(self, it, a, old, exc):
         b = N.arr_buf(a.self)
